@@ -181,6 +181,11 @@ def build_call(sc):
         pt = simple_pt(kind if kind in ("cap", "shape") else None,
                        fault["at"] if fault else None)
         sysm = oqupy.TimeDependentSystem(hw, [gw], [aw])
+        if kind == "zero":
+            # a computation over zero steps (only the initial state)
+            return lambda: oqupy.compute_dynamics(
+                sysm, rho0, process_tensor=pt, num_steps=0,
+                subdiv_limit=None, progress_type=prog)
         return lambda: oqupy.compute_dynamics(
             sysm, rho0, process_tensor=pt, subdiv_limit=None,
             progress_type=prog)
@@ -193,6 +198,10 @@ def build_call(sc):
     if api == "tempo":
         sysm = oqupy.TimeDependentSystem(hw, [gw], [aw])
         t = oqupy.Tempo(sysm, bath, params, rho0, 0.0)
+        if kind == "zero":
+            # the target was already reached: a call that has nothing to do
+            t.compute(end, progress_type="silent")
+            return lambda: t.compute(end, progress_type=prog)
         return lambda: t.compute(end, progress_type=prog)
     if api in ("meanfield", "compute_dynamics_with_field"):
         def hfa(t, a):
@@ -315,7 +324,8 @@ def run_fault_scenario(sc, out, before):
     n_return = out.n
     out.fail_at = None            # the observer's stream works again
     res["fault_fired"] = bool(sc["_state"]["raised"]) or out.broken > 0 or \
-        (sc.get("fault") or {}).get("kind") in ("cap", "shape", "float_end")
+        (sc.get("fault") or {}).get("kind") in ("cap", "shape", "float_end",
+                                                "zero")
     res["user_calls"] = sc["_state"]["n"]
     observe_after(res, out, before, n_return)
     return res
